@@ -1,5 +1,6 @@
 import A816.Model.Program
 import A816.Gen.Tables
+import A816.Proofs.LabelScopesEmit
 /-!
 # C19 — Assemblies are independent of each other and repeatable
 
@@ -60,5 +61,160 @@ theorem builtin_buses_frozen : Gen.lowRomBus.editable = false ∧ Gen.highRomBus
 theorem frozen_bus_rejects_map (b : BusCfg) (h : b.editable = false) (ident : String) (lo hi mask : Nat) (ram : Bool)
     (mirror : Option (Nat × Nat)) : b.map ident lo hi mask ram mirror = none := by
   simp [BusCfg.map, h]
+
+/-! ## emission is repeatable on one resolver
+
+`Program.emit` moves the resolver's position (`pc`, `reloc_address`) and replays the scopes (`current_scope`,
+`last_used_scope`); it changes nothing else — no symbol, label or table of any scope, no bus.  Putting the four
+position fields back therefore gives back exactly the resolver the emission started from, and a second emission of the
+same node list writes the same blocks (what `resolver_reset()` + `emit` does for a tool that writes two files from one
+resolved program; `resolver_reset` restores three of the four fields, the fourth is set by the program's first `*=`). -/
+
+/-- `r'` is `r` up to the four position fields -/
+def PosOnly (r r' : Resolver) : Prop :=
+  r' = { r with pc := r'.pc, reloc := r'.reloc, current := r'.current, lastUsed := r'.lastUsed }
+
+theorem PosOnly.refl (r : Resolver) : PosOnly r r := by cases r; rfl
+
+theorem PosOnly.trans {a b c : Resolver} (h1 : PosOnly a b) (h2 : PosOnly b c) : PosOnly a c := by
+  unfold PosOnly at *
+  rw [h2, h1]
+
+theorem posOnly_setPosition (r r' : Resolver) (v : Int) (h : r.setPosition v = some r') : PosOnly r r' := by
+  unfold Resolver.setPosition at h
+  split at h
+  · cases h
+  · split at h
+    · cases h
+    · simp only [Option.some.injEq] at h
+      subst h
+      cases r; rfl
+
+theorem posOnly_useNextScope (r r' : Resolver) (h : r.useNextScope = some r') : PosOnly r r' := by
+  unfold Resolver.useNextScope at h
+  split at h
+  · simp only [Option.some.injEq] at h; subst h; cases r; rfl
+  · cases h
+
+theorem posOnly_restoreScope (r r' : Resolver) (h : r.restoreScope false = some r') : PosOnly r r' := by
+  unfold Resolver.restoreScope at h
+  simp only [] at h
+  split at h
+  · cases h
+  · simp only [Option.some.injEq] at h; subst h; cases r; rfl
+
+/-- what a node's `emit` leaves of the resolver: everything but the position -/
+theorem emitNode_posOnly (env : Env) (n : Node) (r r' : Resolver) (bs : List Nat) (h : emitNode env n r = .ok (r', bs)) :
+    PosOnly r r' := by
+  have keep : ∀ {α} (x : Except Err α) (f : α → Resolver × List Nat), (∀ a, (f a).1 = r) → x.map f = .ok (r', bs) → PosOnly r r' := by
+    intro α x f hf hx
+    cases x with
+    | error e => cases hx
+    | ok a =>
+      simp only [Except.map, Except.ok.injEq] at hx
+      have h2 := hf a
+      rw [hx] at h2
+      have h3 : r' = r := h2
+      rw [h3]; exact PosOnly.refl _
+  cases n with
+  | label name => exact keep _ _ (fun _ => rfl) h
+  | symbol _ _ => simp only [emitNode, Except.ok.injEq, Prod.mk.injEq] at h; rw [← h.1]; exact PosOnly.refl _
+  | argSymbol _ _ => simp only [emitNode, Except.ok.injEq, Prod.mk.injEq] at h; rw [← h.1]; exact PosOnly.refl _
+  | symbolConst _ _ => simp only [emitNode, Except.ok.injEq, Prod.mk.injEq] at h; rw [← h.1]; exact PosOnly.refl _
+  | binary content base => exact keep _ _ (fun _ => rfl) h
+  | includeIps _ => simp only [emitNode, Except.ok.injEq, Prod.mk.injEq] at h; rw [← h.1]; exact PosOnly.refl _
+  | table => simp only [emitNode, Except.ok.injEq, Prod.mk.injEq] at h; rw [← h.1]; exact PosOnly.refl _
+  | ascii _ => simp only [emitNode, Except.ok.injEq, Prod.mk.injEq] at h; rw [← h.1]; exact PosOnly.refl _
+  | text s tbl info => exact keep _ _ (fun _ => rfl) h
+  | scopeEnter =>
+    simp only [emitNode] at h
+    split at h
+    · rename_i r2 hr2
+      simp only [Except.ok.injEq, Prod.mk.injEq] at h
+      rw [← h.1]; exact posOnly_useNextScope r r2 hr2
+    · cases h
+  | scopePop =>
+    simp only [emitNode] at h
+    split at h
+    · rename_i r2 hr2
+      simp only [Except.ok.injEq, Prod.mk.injEq] at h
+      rw [← h.1]; exact posOnly_restoreScope r r2 hr2
+    · cases h
+  | codePos e info =>
+    simp only [emitNode] at h
+    split at h
+    · cases h
+    · split at h
+      · rename_i r2 hr2
+        simp only [Except.ok.injEq, Prod.mk.injEq] at h
+        rw [← h.1]; exact posOnly_setPosition r r2 _ hr2
+      · cases h
+  | reloc e info =>
+    simp only [emitNode] at h
+    split at h
+    · cases h
+    · split at h
+      · rename_i r2 hr2
+        simp only [Except.ok.injEq, Prod.mk.injEq] at h
+        rw [← h.1]; exact posOnly_setPosition r r2 _ hr2
+      · cases h
+  | data w e info =>
+    simp only [emitNode] at h
+    split at h
+    · cases h
+    · simp only [Except.ok.injEq, Prod.mk.injEq] at h; rw [← h.1]; exact PosOnly.refl _
+  | opcode mn size mode index value info =>
+    have hr : r' = r := by
+      simp only [emitNode] at h
+      repeat' split at h
+      all_goals first
+        | (cases h; done)
+        | (cases h; rfl)
+        | (simp only [Except.map] at h; split at h <;> first | (cases h; done) | (cases h; rfl) | (simp only [Except.ok.injEq, Prod.mk.injEq] at h; exact h.1.symm))
+        | (simp only [Except.ok.injEq, Prod.mk.injEq] at h; exact h.1.symm)
+    rw [hr]; exact PosOnly.refl _
+
+theorem emitStep_posOnly (env : Env) (n : Node) (st st' : EmitState) (h : emitStep env n st = .ok st') :
+    PosOnly st.r st'.r := by
+  obtain ⟨r1, bs, hem, hrest⟩ := emitStep_spec env n st st' h
+  have p1 := emitNode_posOnly env n st.r r1 bs hem
+  cases bs with
+  | nil => rw [hrest.2.1 rfl]; exact p1
+  | cons b t =>
+    obtain ⟨a', _, hr⟩ := hrest.2.2.1 (by simp)
+    rw [hr]
+    refine PosOnly.trans p1 ?_
+    unfold PosOnly
+    rfl
+
+theorem emitLoop_posOnly (env : Env) : ∀ (ns : List Node) (st st' : EmitState), emitLoop env ns st = .ok st' →
+    PosOnly st.r st'.r := by
+  intro ns
+  induction ns with
+  | nil => intro st st' h; simp only [emitLoop, Except.ok.injEq] at h; rw [← h]; exact PosOnly.refl _
+  | cons n ns ih =>
+    intro st st' h
+    simp only [emitLoop] at h
+    split at h
+    · cases h
+    · rename_i st1 h1
+      exact PosOnly.trans (emitStep_posOnly env n st st1 h1) (ih st1 st' h)
+
+/-- **a second emission repeats the first**: after emitting a node list, the resolver with its four position fields put
+    back is the resolver the emission started from — no scope, symbol, label, table or bus was touched — so emitting
+    the same node list again from it gives the same writes, the same trace and the same final state (or the same error) -/
+theorem second_emission_repeats (env : Env) (ns : List Node) (st st' : EmitState) (h : emitLoop env ns st = .ok st') :
+    emitLoop env ns { st with r := { st'.r with pc := st.r.pc, reloc := st.r.reloc, current := st.r.current, lastUsed := st.r.lastUsed } } = .ok st' := by
+  have hp := emitLoop_posOnly env ns st st' h
+  have : ({ st'.r with pc := st.r.pc, reloc := st.r.reloc, current := st.r.current, lastUsed := st.r.lastUsed } : Resolver) = st.r := by
+    unfold PosOnly at hp
+    rw [hp]
+  rw [this]
+  exact h
+
+/-- non-vacuity: an emission that returns and really moves position fields (a scope entered and left) -/
+example : ((emitLoop (⟨fun _ => none, []⟩ : Env) [.scopeEnter, .scopePop]
+      { (default : EmitState) with r := { (default : Resolver) with scopes := #[{ kind := .plain, parent := none }, { kind := .plain, parent := some 0 }] } }).toOption.map
+        fun s => (s.r.lastUsed, s.r.current)) = some (1, 0) := by decide +kernel
 
 end A816.C19
